@@ -192,6 +192,45 @@ func runCapacity(c *engine.Ctx, ks []*key) {
 			}
 		}
 	})
+	// block-aligned plaintexts whose tail looks like padding (..01, ..02 02, a whole block of 10 / 08): an encrypter that
+	// skips the pad for aligned input, or a decrypter that guesses, loses real bytes exactly here
+	c.Case("widen/capacity/aligned-plaintext-with-padding-like-tail", func(t *engine.T) {
+		pw := []byte("C14-aligned")
+		for _, op := range capOps() {
+			if op.dec == nil {
+				continue
+			}
+			for _, L := range []int{op.bs, 2 * op.bs, 3 * op.bs, 11 * op.bs} {
+				for ti, tail := range [][]byte{{1}, {2, 2}, {3, 3, 3}, bytes.Repeat([]byte{byte(op.bs)}, op.bs), {0x80}, {0}} {
+					pt := make([]byte, L)
+					for i := range pt {
+						pt[i] = byte(0x30 + i%7)
+					}
+					copy(pt[L-len(tail):], tail)
+					var out, back []byte
+					var e1, e2 error
+					key := "capacity/aligned-tail/" + op.name
+					if t.Guard(key, func() {
+						out, e1 = op.enc(append([]byte{}, pt...), pw)
+						if e1 == nil {
+							back, e2 = op.dec(out, pw)
+						}
+					}) {
+						continue
+					}
+					t.Eval(1)
+					if e1 != nil {
+						t.Outcome("aligned-tail/not-built")
+						continue
+					}
+					if e2 != nil || !bytes.Equal(back, pt) {
+						t.Fail(key+"/does-not-round-trip", "%s: a %d-byte plaintext ending in %x decrypts to %d bytes (%v); tail class #%d", op.name, L, tail, len(back), e2, ti)
+					}
+					t.Nontrivial(fmt.Sprintf("aligned-tail/%s/%d/%d", op.name, L/op.bs, ti))
+				}
+			}
+		}
+	})
 	c.Case("widen/capacity/padded-plaintext", func(t *engine.T) {
 		pw0 := []byte("C14-capacity")
 		pts := capPlaintexts(ks)
